@@ -388,11 +388,12 @@ func compareServer(check string, cases []cexCase, res *Result, withSpec ...bool)
 
 func init() {
 	checks["C03"] = func(tier string, seed uint64, res *Result) error {
-		res.Rule = "generated MBAP request streams (1-4 pipelined frames, all supported function codes with boundary address/quantity/byte-count values, all 256 function codes, corrupted headers/PDUs, cuts, random bytes; random segmentation and ending) x scripted handlers (ok, short, long, nil, each documented error, ErrProtocolError, arbitrary error) through the real handleTransport; handler calls and response bytes in order compared with the Lean model; distinct = (first frame class, first handler behaviour, end class, number of calls)"
+		res.Rule = "generated MBAP request streams (1-4 pipelined frames, all supported function codes with boundary address/quantity/byte-count values, all 256 function codes, corrupted headers/PDUs, cuts, random bytes; random segmentation and ending) x scripted handlers (ok, short, long, nil, each documented error, ErrProtocolError, arbitrary error) through the real handleTransport; handler calls and response bytes in order compared with the Lean model; plus, on a real server over loopback tcp, valid requests arriving at 15-80 % of the idle window with handlers completing at 40-160 % of it (exactly one call, then exactly one response); distinct = (first frame class, first handler behaviour, end class, number of calls)"
 		cases, err := runServerCases(seed, scale(tier, 1200, 25000), res)
 		if err != nil {
 			return err
 		}
+		lateRequests(tier, seed, res)
 		return compareServer("srv", cases, res, true)
 	}
 }
